@@ -415,6 +415,27 @@ def import_kinds(ctx, r):
                     return "?", q.show(body)
         return None, None
 
+    # the list a selective import is filtered by is that import's own list (bound by the arm), not a collection that lives
+    # across the loop over the file's imports
+    for kind in ("Inclusion", "Exclusion"):
+        a = arms.get(kind)
+        if a is None:
+            continue
+        own = set(q.pat_bindings(a["pat"]))
+        derived = set(own)
+        for l_ in q.walk(a["body"]):
+            if l_["k"] == "Local" and l_.get("init") is not None and l_["init"]["k"] != "Closure" and q.idents_in(l_["init"]) & derived:
+                derived |= set(q.pat_bindings(l_["pat"]))
+        for cl in q.walk(a["body"]):
+            if cl["k"] != "Closure":
+                continue
+            for x in q.walk(cl["body"]):
+                if x["k"] == "MethodCall" and x["m"] in ("any", "contains", "all"):
+                    roots = q.idents_in(x["recv"]) - set(q.pat_bindings(p_) for p_ in [])  # identifiers of the tested collection
+                    roots = {i_ for i_ in roots if i_ not in [b for p_ in cl.get("params", []) for b in q.pat_bindings(p_)]}
+                    r.ob(bool(roots) and roots <= derived, f"resolve.rs:resolve_imports_file:{kind}:list-outlives-the-import", RES, x["l"],
+                         f"`use m.(..)` / `use m except ..` must be filtered by the list written in that import; the predicate tests `{q.show(x['recv'])}`, which is not bound by the {kind} arm ({sorted(roots - derived)} lives outside it): names listed by an earlier import of the same file leak into later ones, so an import hides or shows names it does not mention",
+                         sample=f"{kind}: filtered by its own list ({sorted(roots)})")
     if "Inclusion" in arms and "Exclusion" in arms:
         pi, ti = pred_polarity(arms["Inclusion"])
         pe, te = pred_polarity(arms["Exclusion"])
@@ -720,6 +741,25 @@ def arg_misuse(ctx, r):
                 if any((c_, not pol) in ea for c_, pol in at):
                     missing = True
     r.ob(missing, "resolve.rs:calculate_func_call_order:missing-required", RES, f["l"], "missing required arguments must be reported and the call order not computed", sample="missing required argument: diagnostic, early return")
+    # a callee without a recorded parameter list (a function value, an interface method): any named argument is refused, and the
+    # test looks at every argument, not at one position
+    argp = next((b for p_ in f["params"] if not p_.get("self") and "FuncCallArg" in p_.get("ty", "") for b in q.pat_bindings(p_["pat"])), "args")
+    locs = {b: l_["init"] for l_ in q.walk(f["body"]) if l_["k"] == "Local" and l_.get("init") is not None for b in q.pat_bindings(l_["pat"])}
+    nodef = [x for x in q.walk(f["body"]) if x["k"] == "If" and pushes_error(x["t"]) and any(y["k"] == "MethodCall" and y["m"] == "is_none" for y in q.walk(x["c"]))]
+    if not nodef:
+        r.missing("calculate_func_call_order:named-arguments-without-definition", RES)
+    else:
+        c0 = nodef[0]["c"]
+        parts = [c_ for c_, pol in q.cond_atoms([(c0, True)]) if pol]
+        uses = []
+        for c_ in parts:
+            e_ = locs.get(c_["p"], c_) if c_["k"] == "Path" else c_
+            if any(y["k"] == "Field" and y["f"] == "name" for y in q.walk(e_)) or "name" in q.show(e_):
+                uses.append(e_)
+        every = bool(uses) and all(any(y["k"] == "MethodCall" and y["m"] == "any" and argp in q.idents_in(y["recv"]) for y in q.walk(e_)) for e_ in uses)
+        r.ob(every, "resolve.rs:calculate_func_call_order:named-argument-test-not-over-all-arguments", RES, nodef[0]["l"],
+             f"calculate_func_call_order: named arguments must be refused for a callee without a recorded parameter list whenever *any* argument is named; the test is `{[q.show(e_)[:80] for e_ in uses]}`: `sub(b = 1, 10)` on a function value passes it (the positional-after-named check only runs when a definition exists), the names are ignored and the values are passed in written order",
+             sample="no definition: any named argument is refused")
     # the reorder step: the slot of a named argument comes from a non-panicking lookup of its name; positional -> its position; defaults fill only empty slots; read out in slot order
     panicking = [x for x in q.walk(g["body"]) if x["k"] == "MethodCall" and x["m"] == "get_id" and "name" in q.show(x["args"][0])]
     r.ob(not panicking, "resolve.rs:calculate_named_arg_order:panicking-name-lookup", RES, g["l"],
@@ -1647,3 +1687,146 @@ def last_flag(ctx, r):
                      f"{f['name']}: `{q.show(flag)}` marks the last statement so that its value is kept as the result; {why}, so when the last *lowered* statement is not the last element (a function definition after the final expression of the main file) its value is popped and the program's result is whatever lies below",
                      sample=f"{f['name']}: last-statement flag `{q.show(flag)}` over `{seq}`")
     r.count("last-statement flags", n, 2, TB)
+
+
+@rule("BUILTIN-IDENTITY", ["C01", "C21"], "where the generator recognises builtin functions by their qualified-name string, the name counts only for a function declared in the prelude: a user module named like a builtin type produces the same strings")
+def builtin_identity(ctx, r):
+    items = ctx.file_items(TB)
+    if items is None:
+        r.missing(TB)
+        return
+    n = 0
+    for f in q.find_fns(items, impl_ty="Translator"):
+        if f.get("body") is None:
+            continue
+        params = {b for p in f["params"] if not p.get("self") for b in q.pat_bindings(p["pat"])}
+        for m in q.walk(f["body"]):
+            if m["k"] != "Match":
+                continue
+            lits = [a for a in m["arms"] if a["pat"].get("k") == "PLit" and str(a["pat"].get("v", "")).count(".") >= 1]
+            emits = [a for a in lits if any(x["k"] == "MethodCall" and x["m"] == "emit" for x in q.walk(a["body"]))]
+            if len(lits) < 3 or not emits:
+                continue
+            n += 1
+            scr = q.strip_refs(m["e"])
+            name = scr["p"] if scr["k"] == "Path" else None
+            guarded = False
+            if name is not None and name not in params:
+                for l_ in q.walk(f["body"]):
+                    if l_["k"] == "Local" and l_.get("init") is not None and name in q.pat_bindings(l_["pat"]):
+                        idents = {y.get("f") for y in q.walk(l_["init"]) if y["k"] == "Field"} | {y.get("m") for y in q.walk(l_["init"]) if y["k"] == "MethodCall"}
+                        lits_ = " ".join(str(y.get("v")) for y in q.walk(l_["init"]) if y["k"] in ("Lit", "PLit"))
+                        guarded = bool(idents & {"file_db", "package_name", "file_id", "package_name_str"}) and "prelude" in lits_
+            r.ob(guarded, f"translate_bytecode.rs:{f['name']}:builtin-recognised-by-name-only", TB, m["l"],
+                 f"{f['name']}: `match {q.show(m['e'])}` replaces calls by instructions for names such as {[a['pat']['v'] for a in lits[:3]]}; the string is the qualified name of *any* function, and a function `read` in a user file `channel.abra` is `channel.read` too - its call is compiled as the builtin and the VM faults ('expected channel but got int'). The name must be used only for a function declared in the prelude",
+                 sample=f"{f['name']}: builtin names honoured for prelude declarations only")
+    r.count("name-keyed builtin tables in the generator", n, 1, TB)
+
+
+@rule("TUPLE-SLOT", ["C19", "C01"], "a function of the generator that returns several sets of the same type as a tuple is destructured slot by slot as it names them: a binder called after one component is not bound to another")
+def tuple_slot(ctx, r):
+    items = ctx.file_items(TB)
+    if items is None:
+        r.missing(TB)
+        return
+    n = 0
+    fns = [f for f in q.find_fns(items, impl_ty="Translator") if f.get("body") is not None]
+    for f in fns:
+        st = q.body_stmts(f["body"])
+        tail = st[-1]["e"] if st and st[-1]["k"] == "ExprStmt" else None
+        if tail is None or tail["k"] != "Tuple" or len(tail["elems"]) < 2 or not all(e["k"] == "Path" and "::" not in e["p"] for e in tail["elems"]):
+            continue
+        comps = [e["p"] for e in tail["elems"]]
+        # only where at least two components have the same declared type (a swap would still compile)
+        ret = (f.get("ret") or "").strip().strip("()")
+        tys = [t.strip() for t in ret.split(",")] if ret else []
+        if len(tys) != len(comps) or len(set(tys)) == len(tys):
+            continue
+        for g in fns:
+            for l in q.walk(g["body"]):
+                if l["k"] != "Local" or l.get("init") is None or l["pat"].get("k") != "PTuple" or len(l["pat"]["elems"]) != len(comps):
+                    continue
+                if not any(c["k"] == "MethodCall" and c["m"] == f["name"] for c in q.walk(l["init"])):
+                    continue
+                for i, pe in enumerate(l["pat"]["elems"]):
+                    bs = q.pat_bindings(pe)
+                    if len(bs) != 1:
+                        continue
+                    b = bs[0].lstrip("_")
+                    n += 1
+                    named_after = [j for j, cn in enumerate(comps) if cn.rstrip("s") in b and tys[j] == tys[i]]
+                    r.ob(not named_after or i in named_after, f"translate_bytecode.rs:{g['name']}:{f['name']}:{bs[0]}:bound-to-another-component", TB, l["l"],
+                         f"{g['name']}: `{bs[0]}` is bound to component #{i} (`{comps[i]}`) of {f['name']}(..) = ({', '.join(comps)}), although it is named after `{comps[named_after[0]] if named_after else ''}`; both are {tys[i]}, so the swap compiles: an enclosing function then receives a nested lambda's locals instead of its captures, outer variables used only by the nested lambda are not captured and the generator or the VM faults",
+                         sample=f"{g['name']}: {bs[0]} <- {f['name']}.{comps[i]}")
+    r.count("named binders of multi-set results", n, 3, TB)
+
+
+@rule("TRY-SUBST", ["C23", "C01"], "for `e?` the recorded instance of Try.branch is that of the tried expression's type and the instance of Try.from_residual that of the enclosing function's return type")
+def try_subst(ctx, r):
+    TCF = "abra_core/src/statics/typecheck.rs"
+    items = ctx.file_items(TCF)
+    if items is None:
+        r.missing(TCF)
+        return
+    n = 0
+    want = {"branch": "tried", "from_residual": "ret"}
+    for f, _ in q.iter_items(items):
+        if f["k"] != "Fn" or f.get("body") is None:
+            continue
+        sigs = {}
+        for l in q.walk(f["body"]):
+            if l["k"] == "Local" and l.get("init") is not None and l["pat"].get("k") == "PIdent":
+                if l["init"]["k"] == "Closure":
+                    continue
+                for c in q.walk(l["init"]):
+                    # the method looked up by name, in place or through a local helper that is given the name
+                    if c["k"] in ("MethodCall", "Call") and c["args"]:
+                        lits = [a_.get("v") for a_ in c["args"] if a_["k"] == "Lit" and a_.get("t") == "str" and a_.get("v") in want]
+                        if lits and (c["k"] == "Call" or c["m"] == "get_method_by_name"):
+                            sigs[l["pat"]["name"]] = lits[0]
+        if len(sigs) < 2:
+            continue
+        locs = {}
+        for l in q.walk(f["body"]):
+            if l["k"] == "Local" and l.get("init") is not None:
+                for b in q.pat_bindings(l["pat"]):
+                    locs.setdefault(b, []).append(l["init"])
+
+        def origin(name, depth=0):
+            """'tried' / 'ret' for a variable, following the locals it was computed from back to the names of the constraint's components."""
+            low = name.lower()
+            if "tried" in low:
+                return "tried"
+            if "ret" in low:
+                return "ret"
+            if depth > 4:
+                return None
+            for init in locs.get(name, []):
+                for i_ in sorted(q.idents_in(init)):
+                    if i_ != name:
+                        o = origin(i_, depth + 1)
+                        if o:
+                            return o
+            return None
+
+        for l in q.walk(f["body"]):
+            if not (l["k"] == "Local" and l.get("init") is not None):
+                continue
+            init = l["init"]
+            if init["k"] == "MethodCall" and init["m"] == "subst" and init["recv"]["k"] == "Path" and init["recv"]["p"] in sigs and init["args"]:
+                method = sigs[init["recv"]["p"]]
+                sv = q.strip_refs(init["args"][0])
+                if sv["k"] != "Path":
+                    continue
+                # the substitution: get_substitution_of_typ(ctx, &imp.typ, &T)
+                src = None
+                for i2 in locs.get(sv["p"], []):
+                    for c in q.walk(i2):
+                        if c["k"] == "Call" and c["f"]["k"] == "Path" and q.last_seg(c["f"]["p"]) == "get_substitution_of_typ" and len(c["args"]) >= 3:
+                            t = q.strip_refs(c["args"][2])
+                            src = origin(t["p"]) if t["k"] == "Path" else None
+                n += 1
+                r.ob(src == want[method], f"typecheck.rs:{f['name']}:{method}:instantiated-at-the-other-type", TCF, l["l"],
+                     f"{f['name']}: the signature of Try.{method} is instantiated with `{sv['p']}`, the substitution obtained from the {'tried expression' if src == 'tried' else 'enclosing function return type' if src == 'ret' else '?'}; `{method}` {'takes the tried value' if method == 'branch' else 'produces the value the enclosing function returns'}, so it must be the other one. The two agree except when exactly one of the payloads is void: then the generator emits or omits a `pop` for the wrong instance and the operand stack is off by one (internal fault)",
+                     sample=f"{f['name']}: Try.{method} instantiated from the {want[method]} type")
+    r.count("Try method signatures instantiated", n, 2, TCF)
